@@ -36,7 +36,7 @@ def c12a(ctx, progs, tag="main"):
     enc, dec = shapes_for(ctx, progs)
     o = ctx.ob("C12.a", "%s/enumeration" % tag, "K9", "every Decode impl is paired with the Encode impl selected for its self type")
     o.sites = len(dec.impls)
-    floor = 100
+    floor = 90
     if len(dec.impls) < floor or len(enc.impls) < floor:
         ctx.fail(o, "(program)", "expected >= %d Decode and Encode impls, found %d / %d" % (floor, len(dec.impls), len(enc.impls)))
     ctx.notes.append("%s: %d Encode impls, %d Decode impls" % (tag, len(enc.impls), len(dec.impls)))
@@ -294,6 +294,18 @@ def run(ctx):
     if "x" in enc_dec:
         ctx.run_clause("C12.b", lambda c: c12b(c, enc_dec["x"][0]))
     ctx.run_clause("C12.c", lambda c: c12c(c, prog))
+    # the derive macros: their fixtures live in the serializer's unit-test module (unit/tuple/named structs, enums with
+    # unit/tuple/struct variants, generics, #[serialize(skip)]); analysed, never run
+    def fixtures(c):
+        st = c.program("sertest")
+        e, d = c12a(c, [st], "derive-fixtures")
+        o = c.ob("C12.d", "derive-fixtures/present", "K3", "the derive fixtures (8 shapes incl. skip and generics) are analysed")
+        fx = [x for x in d.impls if "::test::" in repr(x["self"])]
+        o.sites = len(fx)
+        if len(fx) < 8:
+            c.fail(o, "(program)", "expected >= 8 derived fixture types in qbice_serialize's test module, found %d" % len(fx))
+        c12b(c, e)
+    ctx.run_clause("C12.d", fixtures)
     if ctx.tier == "thorough":
         rocks = ctx.program("rocks")
         ctx.run_clause("C12.a", lambda c: c12a(c, [rocks], "workspace"))
